@@ -196,3 +196,67 @@ func sState(c *Ctx, rule string) {
 		}
 	}
 }
+
+// sTransferFlag: the leadership-transfer flag the leader loop tests before
+// taking client requests means what its accessors say.
+func sTransferFlag(c *Ctx, rule string) {
+	fld := c.P.LookupField("leaderState", "leadershipTransferInProgress")
+	if fld == nil {
+		c.Bad(rule, "anchor:leaderState.leadershipTransferInProgress", "-", "field exists", "not found")
+		return
+	}
+	if fn := c.Fn(rule, "(*Raft).getLeadershipTransferInProgress"); fn != nil {
+		for _, ret := range engine.ReturnsOf(fn) {
+			d := c.P.D(engine.ReturnValues(ret)[0])
+			c.Check(rule, "getLeadershipTransferInProgress:reads-flag", c.P.InstrPos(ret), "true exactly when the flag is 1", d == "(sync/atomic.LoadInt32(recv.leaderState.leadershipTransferInProgress) == 1)", "returns "+d, 1)
+		}
+	}
+	if fn := c.Fn(rule, "(*Raft).setLeadershipTransferInProgress"); fn != nil {
+		r := c.Run(&engine.Automaton{Fn: fn, Tracks: []engine.Track{engine.PredBool("on", DescIs("p1"))}})
+		n := 0
+		for _, w := range c.P.FieldWritesIn(fn, fld) {
+			v, _ := c.P.StoredValue(w.Instr, fld)
+			d := c.P.D(v)
+			n++
+			c.RequireAt(r, rule, "setLeadershipTransferInProgress:"+d, w.Instr, "stores 1 for true and 0 for false", func(vw engine.View) bool {
+				return (d == "1" && vw.T("on")) || (d == "0" && vw.F("on"))
+			})
+		}
+		if n != 2 {
+			c.Bad(rule, "setLeadershipTransferInProgress:writes", c.P.Pos(fn.Pos()), "two stores (1 / 0)", fmt.Sprintf("%d", n))
+		}
+	}
+	c.WhoMay(rule, "write leaderState.leadershipTransferInProgress", c.P.FieldWrites(fld), map[string]string{"(*Raft).setLeadershipTransferInProgress": "the setter"})
+	// every client-facing arm of the leader loop consults the flag first
+	if ll := c.Fn(rule, "(*Raft).leaderLoop"); ll != nil {
+		sel := loopSelect(c, ll)
+		if sel != nil {
+			for k, st := range sel.States {
+				chd := c.P.D(st.Chan)
+				switch chd {
+				case "recv.applyCh", "recv.userRestoreCh", "recv.configurationChangeChIfStable()", "recv.leadershipTransferCh":
+				default:
+					continue
+				}
+				arm := engine.SelectArmEntry(sel, k)
+				if arm == nil {
+					continue
+				}
+				first := ""
+				for _, in := range arm.Instrs {
+					cc := engine.CallCommonOf(in)
+					if cc == nil {
+						continue
+					}
+					n := c.P.CalleeName(cc)
+					if strings.Contains(n, "saturation") || strings.Contains(n, "hclog") || strings.Contains(n, "metrics") {
+						continue
+					}
+					first = n
+					break
+				}
+				c.Check(rule, "leaderLoop:"+strings.TrimPrefix(chd, "recv.")+"-arm-tests-transfer-first", c.P.InstrPos(sel), "the arm's first action is the leadership-transfer test (requests are refused, not queued, while leadership is being handed over)", first == "(*Raft).getLeadershipTransferInProgress", "first call: "+first, 1)
+			}
+		}
+	}
+}
